@@ -25,7 +25,7 @@ check('C03', 'property-based testing against schema tables: exhaustive inventory
       'Schema tables are the harness\'s reading of the statement; conjunction over feature-blind NP\\NP is neither required nor forbidden; bare-N/NP restriction enforced only when both composed-over categories are bare.',
       'DESIGN.md section 7 C03')
 check('C04', 'property-based testing against schema tables: exhaustive targets.ja pair sweep + closure + bounded enumeration + Hypothesis instantiations; unary labels against the statement\'s shape table',
-      'Exploration: every result of ja.apply_binary_rules over all ordered pairs of targets.ja (exhaustive), closure/bounded pairs and perturbed instantiations of the ten schemas and SSEQ must be licensed by the schema its symbol names (head right, crossed composition keeps the secondary slash), with completeness on identical parts; every unary_rules.ja left-hand side and bounded synthetic inputs get the label their shape requires.',
+      'Exploration: every result of ja.apply_binary_rules over all ordered pairs of targets.ja (exhaustive), closure/bounded pairs and perturbed instantiations of the ten schemas and SSEQ must be licensed by the schema its symbol names (head right, crossed composition keeps the secondary slash; soundness only, the statement has no converse clause); every unary_rules.ja left-hand side and bounded synthetic inputs get the label their shape requires.',
       'Mixed-side three-part feature variables and unary shapes the statement does not name are counted as unspecified, not judged.',
       'DESIGN.md section 7 C04')
 
